@@ -162,6 +162,19 @@ def extendFunctionEnv (f : FuncVal) (args : List Obj) : M (Except Obj Nat) := do
     let _ ← setNoChecks nenv ".." (newArray extra) true
   pure (.ok nenv)
 
+/-- the end of `applyFunction`, after the body was evaluated and the caller's environment and
+writer were restored: replay the captured output, then decide on caching (`before`/`after` = the
+callee frame's miss counter around the body) -/
+def finishCall (f : FuncVal) (args : List Obj) (curState before after : Nat) (cantCache : Bool)
+    (res : Obj) (output : Bytes) : M Obj := do
+  if !output.isEmpty then writeOut output
+  if after != before then
+    if cantCache then triggerNoCache curState
+    return res
+  if res.isError then return res
+  cacheSet f.key args res output
+  pure res
+
 def isArrayObj : Obj → Option (List Obj)
   | .array els => some els
   | _ => none
@@ -557,13 +570,7 @@ def applyFunction : Nat → Obj → List Obj → M Obj
           | o :: rest => (chunksBytes o, rest)
           | [] => ([], [])
         set { st with cur := curState, outs := outs }
-        if !output.isEmpty then writeOut output
-        if after != before then
-          if cantCache then triggerNoCache curState
-          return res
-        if res.isError then return res
-        cacheSet f.key args res output
-        pure res
+        finishCall f args curState before after cantCache res output
     | _ => pure (err "not a function")
 
 end
